@@ -27,6 +27,7 @@ type Gen struct {
 	actors  [][]byte
 	keyIdx  map[string]int
 	denoms  []string
+	whales  map[string][][]byte // extreme profile: denom -> accounts holding 2^253..2^254 of it
 	Stats   map[string]int
 }
 
@@ -131,7 +132,7 @@ func (g *Gen) Setup() error {
 	_ = maxGB
 	bound := func() (string, string) {
 		ds := g.subset(0)
-		if g.chance(0.2) {
+		if g.chance(0.2) || (g.Profile == "extreme" && g.chance(0.6)) {
 			return "-", "-"
 		}
 		var mins, maxs []string
@@ -170,11 +171,21 @@ func (g *Gen) Setup() error {
 		maxSubGB, minSubGB, maxSubHr, minSubHr, shares[g.pick(len(shares))], subDelay, sessDelay, g.pick(4)/3, 1-g.pick(5)/4, g.denoms[g.pick(2)], hexs(approver)); err != nil {
 		return err
 	}
+	huge := map[string]int{}
 	for _, a := range g.actors {
 		for _, d := range g.denoms {
 			amt := []string{"0", "5", "1000", "1000000000", "1000000000000000000", "100000000000000000000000000000"}[g.pick(6)]
 			if g.chance(0.6) {
 				amt = "1000000000000"
+			}
+			// extreme: up to two whales per denomination (2^254 and 2^253: total supply stays below 2^256)
+			if g.Profile == "extreme" && huge[d] < 2 && g.chance(0.3) {
+				amt = []string{"28948022309329048855892746252171976963317496166410141009864396001978282409984", "14474011154664524427946373126085988481658748083205070504932198000989141204992"}[huge[d]]
+				huge[d]++
+				if g.whales == nil {
+					g.whales = map[string][][]byte{}
+				}
+				g.whales[d] = append(g.whales[d], a)
 			}
 			if err := g.line("bal addr=%s denom=%s amt=%s", hexs(a), d, amt); err != nil {
 				return err
@@ -350,6 +361,8 @@ func (g *Gen) someID(max uint64) uint64 {
 
 func (g *Gen) bigInt() string {
 	c := []string{"0", "1", "999999999", "1000000000", "1000000001", "9223372036854775807", "340282366920938463463374607431768211456",
+		"1809251394333065553493296640760748560207343510400633813116524750123642650624",  // 2^250 (a whale of the extreme profile can pay it)
+		"14474011154664524427946373126085988481658748083205070504932198000989141204992", // 2^253
 		"57896044618658097711785492504343953926634992332820282019728792003956564819968", // 2^255
 		"115792089237316195423570985008687907853269984665640564039457584007913129639935"} // 2^256-1
 	return c[g.pick(len(c))]
@@ -430,11 +443,17 @@ func (g *Gen) priceCoins(v *view) string {
 	if g.chance(0.3) {
 		hi = 2000
 	}
-	if g.Profile == "extreme" && g.chance(0.3) {
+	if g.Profile == "extreme" && g.chance(0.6) {
 		ds := g.subset(1)
 		var parts []string
 		for _, d := range ds {
-			parts = append(parts, d+":"+g.bigInt())
+			amt := g.bigInt()
+			if g.chance(0.5) {
+				// prices a whale can pay, with ragged low digits (partial-unit rounding)
+				amt = []string{"1809251394333065553493296640760748560207343510400633813116524750123642650624", "14474011154664524427946373126085988481658748083205070504932198000989141204992",
+					"3618502788666131106986593281521497120414687020801267626233049500247285301247", "340282366920938463463374607431768211457"}[g.pick(4)]
+			}
+			parts = append(parts, d+":"+amt)
 		}
 		return strings.Join(parts, ",")
 	}
@@ -578,7 +597,7 @@ func (g *Gen) Tx(v *view) error {
 			u = urls[g.pick(3)]
 		}
 		gbP, hrP := g.priceCoins(v), g.priceCoins(v)
-		if g.chance(0.85) {
+		if g.chance(0.85) && !(g.Profile == "extreme" && g.chance(0.5)) {
 			np := s.App.VPNKeeper.Node.GetParams(ctx)
 			gbP, hrP = g.boundedPrices(np.MaxGigabytePrices, np.MinGigabytePrices), g.boundedPrices(np.MaxHourlyPrices, np.MinHourlyPrices)
 		}
@@ -661,6 +680,9 @@ func (g *Gen) Tx(v *view) error {
 		}
 		if hr != 0 && len(v.plans) > 0 && g.chance(0.5) {
 			buyer = v.plans[g.pick(len(v.plans))].prov
+		}
+		if g.Profile == "extreme" && len(g.whales[d]) > 0 && g.chance(0.5) {
+			buyer = g.whales[d][g.pick(len(g.whales[d]))]
 		}
 		denomField := "denom=" + d
 		return g.line("tx nodeSubscribe from=%s node=%s gb=%d hr=%d %s%s%s", hexs(buyer), hexs(target), gb, hr, denomField, g.addrExtra("from"), g.addrExtra("node"))
